@@ -146,6 +146,41 @@ func (e *Engine) registerCLIIntrinsics() {
 			return Iface{}
 		}
 	}
+	// fmt.Print / Println / Printf write to os.Stdout; the stream takes the bytes or refuses them (solver's choice, one
+	// decision per call): (n, nil) or (0, a fresh error)
+	stdoutPrint := func(render func(r *Run, fr *frame, a []Value) StrV) intrinsicFn {
+		return func(r *Run, fr *frame, a []Value) Value {
+			s := render(r, fr, a)
+			if r.branch(r.fresh("b_stdoutfails", sortBool)) {
+				r.cliStdoutFailed = true
+				e := r.callFunc(fr, r.eng.prog.ImportedPackage("errors").Func("New"), []Value{strLit("write /dev/stdout: refused")}, nil)
+				return Tuple{IntV{C: 0}, e}
+			}
+			r.cliStdout = concatStr(r.cliStdout, s)
+			return Tuple{r.strLen(s), Iface{}}
+		}
+	}
+	in["fmt.Print"] = stdoutPrint(func(r *Run, fr *frame, a []Value) StrV {
+		out := strLit("")
+		for _, x := range a[0].(SliceV).Data {
+			sv, ok := x.(Iface).V.(StrV)
+			if !ok {
+				panic(unsupported("fmt.Print of non-string %T", x.(Iface).V))
+			}
+			out = concatStr(out, sv)
+		}
+		return out
+	})
+	in["fmt.Println"] = stdoutPrint(func(r *Run, fr *frame, a []Value) StrV {
+		return r.eng.intrinsics["fmt.Sprintln"](r, fr, []Value{a[0]}).(StrV)
+	})
+	in["fmt.Printf"] = stdoutPrint(func(r *Run, fr *frame, a []Value) StrV {
+		return r.eng.intrinsics["fmt.Sprintf"](r, fr, a).(StrV)
+	})
+	for _, p := range harnessPkgs {
+		in[p+"verifStdoutFailed"] = func(r *Run, fr *frame, a []Value) Value { return BoolV{C: r.cliStdoutFailed} }
+		in[p+"verifStdout"] = func(r *Run, fr *frame, a []Value) Value { return r.cliStdout }
+	}
 	in[G+".OutputFromMarkdown"] = lib("output", true)
 	in[G+".MkdirFromMarkdown"] = lib("mkdir", false)
 	in[G+".VerifyFromMarkdown"] = lib("verify", false)
